@@ -248,6 +248,29 @@ YearPieces(tab, y, cur, first) ==
   IN YearRec(tab.rows, 1, lo, hi, v0, out0)
 
 ----------------------------------------------------------------------------
+\* ExtendedZoneProcessor::getOffsetDateTime(ldt): a local date-time w (read as <<day, second of day>> on the local clock)
+\* is resolved on the table of the *local* year: findTransitionForDateTime picks the row before the first one whose
+\* startDateTime is after the local minute; the instant obtained with that row's offset is then looked up with
+\* findTransition in the same table and re-expressed with the offset found there (normalisation).
+\* Result: <<shift, offset>> (instant = w + shift) or Err.
+Err == <<"err">>
+LocalTuple(w) == LET c == Civil(w[1]) IN DT(c[1], c[2], c[3], w[2] \div 60, "w")
+FirstAfter(S) == IF S = {} THEN 0 ELSE CHOOSE k \in S : \A j \in S : k <= j
+FindLocal(rows, l) == LET f == FirstAfter({k \in 1..Len(rows) : DLt(l, rows[k].sdt)}) IN IF f = 0 THEN Len(rows) ELSE f - 1
+FindInstant(rows, t) == LET f == FirstAfter({k \in 1..Len(rows) : Lt(t, rows[k].start)}) IN IF f = 0 THEN Len(rows) ELSE f - 1
+Total(r) == 60 * (r.off + r.delta)
+Resolve(t, w) ==
+  IF ~t.filled THEN Err
+  ELSE LET k == FindLocal(t.rows, LocalTuple(w)) IN
+       IF k = 0 THEN Err
+       ELSE LET j == FindInstant(t.rows, AddS(w, 0 - Total(t.rows[k]))) IN
+            IF j = 0 THEN Err ELSE <<0 - Total(t.rows[k]), Total(t.rows[j])>>
+\* wall times at which Resolve(t, _) can change its value
+WallOf(d) == <<Days(d.y, d.m, d.d), 60 * d.mi>>
+WallBreaksOf(t) == {WallOf(t.rows[k].sdt) : k \in 1..Len(t.rows)}
+                   \cup {AddS(t.rows[j].start, Total(t.rows[k])) : j \in 1..Len(t.rows), k \in 1..Len(t.rows)}
+
+----------------------------------------------------------------------------
 \* One behaviour per zone: the tables of the years Y0..Y1 are built one after the other.
 VARIABLES z, y, tab, pieces, cur
 vars == <<z, y, tab, pieces, cur>>
